@@ -112,6 +112,7 @@ SCEN_DESC = {
     'cv': 'token passing through Mutex+Condvar, timed and untimed consumers; give-up mode: impatient consumers leave, tokens == patient consumers, a token left beside a sleeping patient consumer = lost notification',
     'cvrace': 'no-hook stress: condvar ping-pong',
     'bar': 'Barrier generations and WaitGroup: release exactly when due, one leader',
+    'barc': 'reused Barrier with a coroutine party cancelled while it waits in generation 0 (its arrival counted, a substitute from generation 1 on): nobody released before n arrivals',
     'rwseq': 'sequential random RwLock operation sequences against a reference model (poison, try_*)',
     'rw': 'readers / writers with occupancy monitors, poisoned and try_* variants',
     'pan': 'panic storm after detached panickers on pooled stacks: payload delivery, poisoning, bystanders never see thread::panicking(), workers stay healthy',
